@@ -407,6 +407,12 @@ func (o *c06Oracle) prflxProbe() {
 	dst := rig.CandAP(locals[c.T.Choose(len(locals), "dst")])
 	ip := []string{"192.0.2.50", c06FilteredIP}[c.T.Choose(2, "srcip")]
 	src := netip.AddrPortFrom(netip.MustParseAddr(ip), uint16(42000+c.T.Choose(2, "port")))
+	if c.T.Bias(1, 4, "src-of-tcp-candidate") {
+		// the UDP check comes from the very IP:port under which the peer's ICE-TCP candidate was signalled
+		// (tcpSignal): another transport, hence another candidate
+		src = netip.MustParseAddrPort("10.0.9.9:4000")
+		c.Probe("udp-check-from-address-of-tcp-candidate")
+	}
 	o.seq++
 	tb := uint64(99)
 	spec := rig.MsgSpec{Method: stun.MethodBinding, Class: stun.ClassRequest, Seq: 1000 + o.seq,
